@@ -6,7 +6,7 @@
    P, Q >= 1, every matrix and tile size, every k-cyclicity kp, kq >= 1 and every
    grid offset 0 <= ip < P, 0 <= jq < Q (wf_bc), every legal submatrix (wf_tmat). *)
 From PV Require Import Base.Tac Dist.DistDefs Dist.DistArith Dist.DistBCProofs Dist.DistSymProofs
-  Dist.DistMiscProofs Dist.DistTop.
+  Dist.DistMiscProofs Dist.DistKview Dist.DistTop.
 Local Open Scope Z_scope.
 
 (* legal arguments of parsec_tiled_matrix_init give a well-formed descriptor *)
@@ -97,6 +97,30 @@ Theorem C20_bc_tile_memory : forall d m n m' n', wf_bc d -> wf_tmat (bT d) -> bs
    bc_offset d r m' n' + bsiz <= bc_offset d r m n).
 Proof. exact bc_tile_memory. Qed.
 Print Assumptions C20_bc_tile_memory.
+
+(* ---------------- the k-cyclic view of a plain distribution ---------------- *)
+(* kview_compute_m / _n permute the tile indices of the submatrix (cycle walking terminates) *)
+Theorem C20_kview_permutation : forall p ps mt, 0 < p -> 0 < ps ->
+  (forall m, 0 <= m < mt -> 0 <= kview_compute p ps mt m < mt) /\
+  (forall m m', 0 <= m < mt -> 0 <= m' < mt -> kview_compute p ps mt m = kview_compute p ps mt m' -> m = m') /\
+  (forall y, 0 <= y < mt -> exists m, 0 <= m < mt /\ kview_compute p ps mt m = y).
+Proof. intros p ps mt Hp Hps. split; [|split]. exact (kview_in_range p ps mt Hp Hps).
+  exact (kview_injective p ps mt Hp Hps). exact (kview_onto p ps mt Hp Hps). Qed.
+Print Assumptions C20_kview_permutation.
+
+Theorem C20_kview_slot_in_range : forall d vkp vkq m n, wf_bc d -> wf_tmat (bT d) -> 0 < vkp -> 0 < vkq ->
+  in_sub (bT d) m n ->
+  0 <= kv_rank_of d vkp vkq m n < bP d * bQ d /\
+  0 <= kv_position d vkp vkq (kv_rank_of d vkp vkq m n) m n < bc_nb_local_tiles d (kv_rank_of d vkp vkq m n).
+Proof. exact kv_slot_in_range. Qed.
+Print Assumptions C20_kview_slot_in_range.
+
+Theorem C20_kview_slot_injective : forall d vkp vkq m n m' n', wf_bc d -> wf_tmat (bT d) -> 0 < vkp -> 0 < vkq ->
+  in_sub (bT d) m n -> in_sub (bT d) m' n' -> kv_rank_of d vkp vkq m n = kv_rank_of d vkp vkq m' n' ->
+  kv_position d vkp vkq (kv_rank_of d vkp vkq m n) m n = kv_position d vkp vkq (kv_rank_of d vkp vkq m n) m' n' ->
+  m = m' /\ n = n'.
+Proof. exact kv_slot_injective. Qed.
+Print Assumptions C20_kview_slot_injective.
 
 (* ---------------- symmetric ---------------- *)
 Theorem C20_sym_rank_in_range : forall d m n, wf_sym d -> sym_in_sub d m n ->
